@@ -56,12 +56,13 @@ type arrival struct {
 }
 
 type issued struct {
-	Idx     int
-	API     string
-	Parts   []int32
-	Err     string          // request-level error reported to onDone / returned
-	PartOK  map[int32]bool  // partition-level success
-	Done    bool
+	Idx       int
+	API       string
+	Parts     []int32
+	Err       string         // request-level error reported to onDone / returned
+	PartOK    map[int32]bool // partition-level success
+	Done      bool
+	Abandoned bool // the application cancelled this commit's context shortly after issuing it
 }
 
 const (
@@ -287,6 +288,7 @@ func run(p plan, watchdog time.Duration) (arr []arrival, iss []*issued, final ma
 				// is still queued behind an earlier one); later commits must still not overtake
 				// earlier ones
 				is.API = "CommitOffsets(abandoned)"
+				is.Abandoned = true
 				time.AfterFunc(time.Duration(rng.IntN(25))*time.Millisecond, cancel)
 			}
 			wg.Add(1)
@@ -359,7 +361,19 @@ func judge(r *vh.Run, p plan, mode string, arr []arrival, iss []*issued, final, 
 	// arrival order per partition
 	maxSeen := map[int32]int64{}
 	reordered, retries, delayedWhileLater := 0, 0, 0
+	abandoned := map[int64]bool{}
+	for _, is := range iss {
+		if is.Abandoned {
+			abandoned[int64(base+is.Idx)] = true
+		}
+	}
 	for _, a := range arr {
+		if abandoned[a.Offset] {
+			// Cancelling a commit that is already on the wire kills its connection; the next commit
+			// goes out on a new connection and the broker may handle the two in either order. The
+			// application gave up this commit's ordering itself, so its arrival is not judged.
+			continue
+		}
 		if a.Offset < maxSeen[a.Part] {
 			reordered++
 			r.Violation("commit-arrived-after-a-later-commit", wit(fmt.Sprintf("partition %d: commit #%d arrived at the coordinator (clock %d) after commit #%d had already arrived", a.Part, a.Offset-base, a.Clock, maxSeen[a.Part]-base)))
